@@ -53,11 +53,43 @@ theorem stackOK_mono {s s' : Schema} (hx : SExt s s') : ∀ (l : List Matcher), 
       obtain ⟨h1, ⟨t', ht'⟩, h3⟩ := stackOK_two.mp h
       exact stackOK_two.mpr ⟨MOK.mono hx h1, ⟨t', hx _ _ ht'⟩, ih h3⟩
 
+/-- an abstract type stays an abstract type -/
+def AExt (s s' : Schema) : Prop :=
+  ∀ name a l, s.gettype name = some (.abstract_ a l) → ∃ a' l', s'.gettype name = some (.abstract_ a' l')
+
+theorem AExt.refl (s : Schema) : AExt s s := fun _ a l h => ⟨a, l, h⟩
+theorem AExt.trans {a b c : Schema} (h1 : AExt a b) (h2 : AExt b c) : AExt a c := fun n x l h => by
+  obtain ⟨x', l', h'⟩ := h1 n x l h
+  exact h2 n x' l' h'
+
+/-- the schema the option bags consult (`OptionBag.schema`, the one the load started with) is an earlier stage of the
+    schema of the load: its concrete types are still what they were, its abstract types are still abstract -/
+def BagSchOK (bs : Option Schema) (s : Schema) : Prop := ∀ S0, bs = some S0 → SExt S0 s ∧ AExt S0 s
+
+theorem BagSchOK.lookup {bs : Option Schema} {s : Schema} (h : BagSchOK bs s) (n : Str) (t : SType)
+    (hn : s.gettype n = some (.concrete t)) :
+    (bs.getD s).gettype n = none ∨ ∃ t', (bs.getD s).gettype n = some (.concrete t') := by
+  cases bs with
+  | none => exact .inr ⟨t, hn⟩
+  | some S0 =>
+    obtain ⟨h1, h2⟩ := h S0 rfl
+    show S0.gettype n = none ∨ ∃ t', S0.gettype n = some (.concrete t')
+    cases hg : S0.gettype n with
+    | none => exact .inl rfl
+    | some te =>
+      cases te with
+      | concrete t' => exact .inr ⟨t', rfl⟩
+      | abstract_ a l =>
+        obtain ⟨a', l', h'⟩ := h2 n a l hg
+        rw [hn] at h'
+        cases h'
+
 structure LSInv (n : Nat) (st : LS) : Prop where
   len : st.stack.length = n + 1
   sok : SOK st.schema
   stk : stackOK st.schema st.stack
   pkgs : ∀ p, pkgWF (st.pkgs p) = true
+  bsx : BagSchOK st.bagSchema st.schema
 
 /-! ### looking types up -/
 
@@ -120,21 +152,22 @@ theorem lsStart_ok (hlow : ∀ x : Str, lower (lower x) = lower x) (n : Nat) (st
           · have hnew : ∀ cb : Option Bag, (∀ b, cb = some b → BagOK b) → MOK st.schema (newMatcher t nm cb) :=
               fun cb hcb => MOK.new st.schema t htok nm cb hcb
             split
-            · refine ok_res _ _ ⟨?_, hinv.sok, ?_, hinv.pkgs⟩
+            · refine ok_res _ _ ⟨?_, hinv.sok, ?_, hinv.pkgs, hinv.bsx⟩
               · simp only [List.length_cons]
                 have := hinv.len
                 rw [hstk] at this
                 simpa using this
               · exact stackOK_two.mpr ⟨hnew none (fun b hb => by cases hb), ⟨t, hnamed⟩, hso⟩
             · rename_i b hb
-              obtain ⟨B1, B2⟩ := bagSectionInfo_ok st.conv st.schema b (t.name.getD []) nm (hpar.bag b hb) ⟨t, hnamed⟩
+              obtain ⟨B1, B2⟩ := bagSectionInfo_ok st.conv (st.bagSchema.getD st.schema) b (t.name.getD []) nm (hpar.bag b hb)
+                (hinv.bsx.lookup _ t hnamed)
               split
               · rename_i x hx
                 exact err_res _ _ (fun e h => B1 e (by rw [← h]; exact hx))
               · rename_i v hv
                 obtain ⟨b', cb⟩ := v
                 obtain ⟨C1, C2⟩ := B2 b' cb hv
-                refine ok_res _ _ ⟨?_, hinv.sok, ?_, hinv.pkgs⟩
+                refine ok_res _ _ ⟨?_, hinv.sok, ?_, hinv.pkgs, hinv.bsx⟩
                 · simp only [List.length_cons]
                   have := hinv.len
                   rw [hstk] at this
@@ -163,7 +196,7 @@ theorem ni_lsValue_ok (n : Nat) (st : LS) (k v : Str) (pos : Pos) (hinv : LSInv 
     · intro st' h
       obtain ⟨m, hm, rfl⟩ := map_ok_inv h
       obtain ⟨D1, D2⟩ := A2 m hm
-      refine ⟨?_, hinv.sok, stackOK_replace hso D1 D2.1, hinv.pkgs⟩
+      refine ⟨?_, hinv.sok, stackOK_replace hso D1 D2.1, hinv.pkgs, hinv.bsx⟩
       have := hinv.len
       rw [hstk] at this
       simpa using this
@@ -195,7 +228,7 @@ theorem lsStop_ok (n : Nat) (st : LS) (ty : Str) (nm : Option Str) (hinv : LSInv
         exact err_res _ _ (fun e h => A1 e (by rw [← h]; exact hx))
       · rename_i p' hp'
         obtain ⟨D1, D2⟩ := A2 p' hp'
-        refine ok_res _ _ ⟨?_, hinv.sok, stackOK_replace hrest D1 D2.1, hinv.pkgs⟩
+        refine ok_res _ _ ⟨?_, hinv.sok, stackOK_replace hrest D1 D2.1, hinv.pkgs, hinv.bsx⟩
         simp only [List.length_cons] at hlen ⊢
         omega
 
@@ -332,6 +365,79 @@ theorem impOne_ok (s0 : Schema) (impls : List (Str × Str)) (sc : Schema) (te : 
   · exact err_res _ _ (cfg_ni _)
   · exact ok_res _ _ (SchQ_foldl s0 te.1 impls _ (SchQ_append s0 sc te h hte))
 
+/-! ### abstract types stay abstract while a component is read -/
+
+theorem gettype_components (sc : Schema) (c : List Str) (n : Str) :
+    ({ sc with components := c } : Schema).gettype n = sc.gettype n := rfl
+
+theorem AExt_regImpl (sc : Schema) (ia : Str × Str) : AExt sc { sc with types := sc.types.map (ni_regImpl ia) } := by
+  intro name a l hg
+  unfold Schema.gettype at hg ⊢
+  simp only
+  rw [find_map_key _ (regImpl_fst ia)]
+  cases hf : sc.types.find? (·.1 == lower name) with
+  | none => rw [hf] at hg; cases hg
+  | some p =>
+    rw [hf] at hg
+    simp only [Option.map_some, Option.some.injEq] at hg ⊢
+    unfold ni_regImpl
+    rw [hg]
+    simp only
+    split
+    · exact ⟨_, _, rfl⟩
+    · exact ⟨_, _, hg⟩
+
+theorem AExt_foldl (te1 : Str) : ∀ (impls : List (Str × Str)) (sc : Schema),
+    AExt sc (impls.foldl (fun (sc : Schema) (ia : Str × Str) =>
+      if ia.1 == te1 then { sc with types := sc.types.map (ni_regImpl ia) } else sc) sc) := by
+  intro impls
+  induction impls with
+  | nil => intro sc; exact AExt.refl sc
+  | cons ia rest ih =>
+    intro sc
+    rw [List.foldl_cons]
+    refine AExt.trans ?_ (ih _)
+    split
+    · exact AExt_regImpl sc ia
+    · exact AExt.refl sc
+
+theorem AExt_append (sc : Schema) (te : Str × TypeEntry) : AExt sc { sc with types := sc.types ++ [te] } := by
+  intro name a l hg
+  unfold Schema.gettype at hg ⊢
+  simp only
+  rw [List.find?_append]
+  cases hf : sc.types.find? (·.1 == lower name) with
+  | none => rw [hf] at hg; cases hg
+  | some p =>
+    rw [hf] at hg
+    exact ⟨a, l, by simpa using hg⟩
+
+theorem AExt_impOne (impls : List (Str × Str)) (sc sc' : Schema) (te : Str × TypeEntry)
+    (h : impOne impls sc te = .ok sc') : AExt sc sc' := by
+  unfold impOne at h
+  split at h
+  · cases h
+  · cases h
+    exact AExt.trans (AExt_append sc te) (AExt_foldl te.1 impls _)
+
+theorem AExt_foldlM (impls : List (Str × Str)) : ∀ (types : List (Str × TypeEntry)) (sc sc' : Schema),
+    types.foldlM (impOne impls) sc = .ok sc' → AExt sc sc' := by
+  intro types
+  induction types with
+  | nil =>
+    intro sc sc' h
+    simp only [List.foldlM_nil, pure, Except.pure, Except.ok.injEq] at h
+    subst h
+    exact AExt.refl sc
+  | cons te rest ih =>
+    intro sc sc' h
+    rw [List.foldlM_cons] at h
+    cases h1 : impOne impls sc te with
+    | error e => rw [h1] at h; cases h
+    | ok sc1 =>
+      rw [h1] at h
+      exact AExt.trans (AExt_impOne impls sc sc1 te h1) (ih sc1 sc' h)
+
 theorem lsImport_ok (n : Nat) (st : LS) (pkg : Str) (hinv : LSInv n st) :
     (∀ e, lsImport st pkg ≠ .error (.internal e)) ∧ (∀ st', lsImport st pkg = .ok st' → LSInv n st') := by
   rw [lsImport_eq]
@@ -345,7 +451,7 @@ theorem lsImport_ok (n : Nat) (st : LS) (pkg : Str) (hinv : LSInv n st) :
     rw [hcomp] at hpk
     have htypes : TypesOK types := typesWF_TypesOK types hpk
     split
-    · exact ok_res _ _ ⟨hinv.len, hinv.sok, hinv.stk, hinv.pkgs⟩
+    · exact ok_res _ _ ⟨hinv.len, hinv.sok, hinv.stk, hinv.pkgs, hinv.bsx⟩
     · obtain ⟨F1, F2⟩ := foldlM_inv (impOne impls) (SchQ st.schema) types
         { st.schema with components := st.schema.components ++ [url] }
         ⟨hinv.sok, fun _ _ h => h⟩
@@ -360,7 +466,14 @@ theorem lsImport_ok (n : Nat) (st : LS) (pkg : Str) (hinv : LSInv n st) :
         exact err_res _ _ (fun e h => F1 e (by rw [← h]; exact hx))
       · rename_i sch hsch
         obtain ⟨Q1, Q2⟩ := F2 sch hsch
-        exact ok_res _ _ ⟨hinv.len, Q1, stackOK_mono Q2 _ hinv.stk, hinv.pkgs⟩
+        refine ok_res _ _ ⟨hinv.len, Q1, stackOK_mono Q2 _ hinv.stk, hinv.pkgs, ?_⟩
+        intro S0 hS0
+        obtain ⟨b1, b2⟩ := hinv.bsx S0 hS0
+        have hA : AExt st.schema sch := by
+          have h0 := AExt_foldlM impls types _ sch hsch
+          intro name a l hg
+          exact h0 name a l (by rw [gettype_components]; exact hg)
+        exact ⟨SExt.trans b1 Q2, AExt.trans b2 hA⟩
 
 /-- the callbacks of the loader context satisfy what the generic parser theorem asks for -/
 theorem loaderCtx_ok (hlow : ∀ x : Str, lower (lower x) = lower x) : CtxOK loaderCtx LSInv :=
@@ -398,7 +511,7 @@ theorem remaining_le (urls active : List Str) : remaining urls active ≤ urls.l
 def loadTail (conv : Conv) (env : Env) (pkgs : Str → Pkg) (schema : Schema) (url : Option Str)
     (lines : List Str) (bag : Option Bag) : M LoadResult := do
   let st0 : LS := { schema := schema, privateSchema := false, handlers := [], stack := [newMatcher schema.top Option.none bag],
-                    pkgs := pkgs, conv := conv }
+                    pkgs := pkgs, conv := conv, bagSchema := bag.map fun _ => schema }
   let active := match url with | some u => if u == [] then [] else [u] | none => []
   let ps ← parseLines 64 env loaderCtx active url lines 0 { ctx := st0, stack := [], defs := [] }
   match ps.ctx.stack with
@@ -434,9 +547,14 @@ theorem loadTail_no_internal (hlow : ∀ x : Str, lower (lower x) = lower x)
     (hbagok : ∀ b, bag = some b → BagOK b)
     (e : String) : loadTail conv env pkgs s url lines bag ≠ .error (.internal e) := by
   unfold loadTail
-  let st0 : LS := { schema := s, privateSchema := false, handlers := [], stack := [newMatcher s.top Option.none bag], pkgs := pkgs, conv := conv }
+  let st0 : LS := { schema := s, privateSchema := false, handlers := [], stack := [newMatcher s.top Option.none bag], pkgs := pkgs, conv := conv,
+                    bagSchema := bag.map fun _ => s }
   have hinv0 : LSInv 0 st0 :=
-    ⟨rfl, hsok, stackOK_one.mpr (MOK.new s s.top hsok.1 none bag hbagok), hp⟩
+    ⟨rfl, hsok, stackOK_one.mpr (MOK.new s s.top hsok.1 none bag hbagok), hp, by
+      intro S0 hS0
+      cases bag with
+      | none => cases hS0
+      | some b => cases hS0; exact ⟨SExt.refl s, AExt.refl s⟩⟩
   obtain ⟨P1, P2⟩ := parseLines_no_internal loaderCtx LSInv (loaderCtx_ok hlow) env urls (fun _ => henv) 64
     (match url with | some u => if u == [] then [] else [u] | none => []) url lines 0
     { ctx := st0, stack := [], defs := [] } 0
